@@ -37,6 +37,7 @@ var c10Attacks = []struct{ name, js string }{
 	{"bindings-nested", `_.bindings.n.q = 99;`},
 	{"bindings-array", `_.bindings.arr[0] = 7; _.bindings.arr.length = 0;`},
 	{"bindings-delete", `delete _.bindings.keep;`},
+	{"bindings-in-array", `_.bindings.deep[0].k[1].z = 9; _.bindings.deep[0].added = 1; _.bindings.deep[1][0] = "x";`},
 	{"env-out", `_.out = function() { return null; };`},
 	{"env-bindings", `_.bindings = {"replaced": true};`},
 	{"env-props", `_.props = {"mid": "fake"};`},
@@ -63,7 +64,7 @@ r.mid = _.props.mid;
 r.extra = typeof _.props.extra;
 r.cfgx = _.props.cfg.x;
 r.frozen = Object.isFrozen(Object.prototype);
-r.n = _.bindings.n; r.arr = _.bindings.arr; r.keep = _.bindings.keep; r.id = _.bindings.id;
+r.n = _.bindings.n; r.arr = _.bindings.arr; r.keep = _.bindings.keep; r.id = _.bindings.id; r.deep = _.bindings.deep;
 _.props.tick();
 _.out({"probe": r.leak, "id": _.bindings.id});
 return r;
@@ -87,6 +88,7 @@ func c10Expected(id float64) (string, string) {
 		"leak": "undefined", "helper": "undefined", "evil": "undefined", "sneaky": "undefined", "push": 1.0, "alen": 1.0,
 		"json": `{"a":1}`, "out": "function", "envb": "undefined", "mid": "m1", "extra": "undefined", "cfgx": 1.0, "frozen": false,
 		"n": map[string]interface{}{"q": 1.0}, "arr": []interface{}{1.0}, "keep": "k", "id": id,
+		"deep": []interface{}{map[string]interface{}{"k": []interface{}{1.0, map[string]interface{}{"z": 1.0}}}, []interface{}{1.0}},
 	}
 	return ref.Canon(r), ref.Canon([]interface{}{map[string]interface{}{"probe": "undefined", "id": id}})
 }
@@ -145,7 +147,7 @@ func runC10(c *sim.Ctx, t *testing.T, concurrent bool) {
 
 	type result struct {
 		bsBefore, bsAfter, propsBefore, propsAfter string
-		got, emitted, err                         string
+		got, emitted, err                          string
 	}
 	results := make([]result, nexec)
 	propsCanon := func(p core.StepProps) string {
@@ -159,7 +161,8 @@ func runC10(c *sim.Ctx, t *testing.T, concurrent bool) {
 	}
 	one := func(i int, tick func()) {
 		pg := progs[plan[i]]
-		bs := match.Bindings{"n": map[string]interface{}{"q": 1.0}, "arr": []interface{}{1.0}, "keep": "k", "id": float64(i)}
+		bs := match.Bindings{"n": map[string]interface{}{"q": 1.0}, "arr": []interface{}{1.0}, "keep": "k", "id": float64(i),
+			"deep": []interface{}{map[string]interface{}{"k": []interface{}{1.0, map[string]interface{}{"z": 1.0}}}, []interface{}{1.0}}}
 		props := core.StepProps{"mid": "m1", "cfg": map[string]interface{}{"x": 1.0}, "tick": tick}
 		r := &results[i]
 		r.bsBefore, r.propsBefore = ref.Canon(map[string]interface{}(bs)), propsCanon(props)
